@@ -38,6 +38,7 @@ import (
 	"fmt"
 	"net/http"
 	"os"
+	"runtime/pprof"
 	"sort"
 	"strings"
 	"sync"
@@ -149,15 +150,15 @@ type mdec struct {
 }
 
 type mspan struct {
-	id          string
-	t           int
-	via         int
-	root        bool
-	exp         int
-	class       string // stress-first | stress-repeat | follow-late | normal | free
-	wantMark    bool   // must carry meta.stressed
-	hny         int    // times seen at Honeycomb (observation)
-	decidedAt   int // node whose collector decides it (-1: none yet)
+	id        string
+	t         int
+	via       int
+	root      bool
+	exp       int
+	class     string // stress-first | stress-repeat | follow-late | normal | free
+	wantMark  bool   // must carry meta.stressed
+	hny       int    // times seen at Honeycomb (observation)
+	decidedAt int    // node whose collector decides it (-1: none yet)
 }
 
 type mnode struct {
@@ -485,7 +486,7 @@ func (t *txWrap) snapshot() []pend {
 type stubPubSub struct{}
 type stubSub struct{}
 
-func (stubSub) Close()                                                       {}
+func (stubSub) Close()                                                      {}
 func (stubPubSub) Publish(ctx context.Context, topic, message string) error { return nil }
 func (stubPubSub) Subscribe(ctx context.Context, topic string, cb pubsub.SubscriptionCallback) pubsub.Subscription {
 	return stubSub{}
@@ -537,9 +538,10 @@ func newCluster() *cluster {
 	c := &cluster{}
 	for i := 0; i < 2; i++ {
 		i := i
-		c.n[i] = pipeline.New(pipeline.Options{Config: newConfig(), Self: addrs[i], Peers: []string{addrs[1-i]}, MaxBatchSize: 4096,
+		c.n[i] = pipeline.New(pipeline.Options{Config: newConfig(), Self: addrs[i], Peers: []string{addrs[1-i]}, MaxBatchSize: 128,
 			Collector: func(n *pipeline.Node) collect.Collector {
 				c.rc[i] = nodecoll.New(n)
+				c.rc[i].OutgoingCap = 16 // >= traces decided per tick (<= 2 per scenario)
 				c.cw[i] = &collWrap{real: c.rc[i]}
 				return c.cw[i]
 			}})
@@ -592,7 +594,7 @@ func (c *cluster) reset(rate uint64) {
 		if !ok {
 			ev.Harness("sample cache is not the cuckoo sent cache")
 		}
-		ctl.StopDrainer()            // the 100 µs REAL-time drainer: its body is run after every event instead
+		ctl.StopDrainer()           // the 100 µs REAL-time drainer: its body is run after every event instead
 		ctl.SetClock(c.rc[i].Clock) // "recently dropped" TTL set on the collector's fake clock
 		c.ctl[i] = ctl
 		c.cw[i].log = nil
@@ -1216,7 +1218,7 @@ func normalVerdicts(ids []string, owner int, ds string) map[string]bool {
 	if len(out) != len(ids) {
 		ev.Harness("calibration: %d decisions for %d traces", len(out), len(ids))
 	}
-	cl.rc[owner].OutgoingCap = 64
+	cl.rc[owner].OutgoingCap = 16
 	return out
 }
 
@@ -1285,6 +1287,12 @@ func buildScenarios(r *ev.Run, tab *ruleTable) []*scenarioDef {
 
 func main() {
 	r := ev.New("C16", "model_checking")
+	if p := os.Getenv("C16_CPUPROF"); p != "" {
+		if f, err := os.Create(p); err == nil {
+			pprof.StartCPUProfile(f)
+			defer pprof.StopCPUProfile()
+		}
+	}
 	nodecoll.Conformance()
 
 	tab := ruleEnumeration(r)
@@ -1336,6 +1344,7 @@ func main() {
 		c.close()
 	}
 	poolMu.Unlock()
+	pprof.StopCPUProfile()
 	r.Finish()
 }
 
